@@ -8,9 +8,15 @@ deterministically and no real time is involved.  ``Handle._run`` is wrapped to s
 
 A case is JSON:
   {"loop": "asyncio"|"sched"|"prio", "aux": [k, ...], "prog": BLOCK,
-   "cancel_at": [[tick, nth_handle_at_that_tick], ...]   (optional environment cancels of the main task)}
+   "cancel_at": [[tick, nth_handle_at_that_tick], ...]   (optional environment cancels of the main task)
+   "children": [{"pre": k, "prog": BLOCK}, ...]}          (optional child tasks, see ["spawn", j])
   BLOCK = {"d": null|int, "body": [ITEM, ...]}
   ITEM  = ["s0"] | ["s", k] | ["aw", j] | ["blk", BLOCK]
+        | ["spawn", j]   create child Python task j *here* (possibly inside timed blocks); the child sleeps
+                         `pre` ticks and then runs its own block tree with its own timeouts
+        | ["join", j]    await child j (un-shielded) if it was spawned
+Every task's timeout levels are its own: a child spawned inside its creator's timed block inherits the
+creator's contextvars, and nothing else.
 """
 from __future__ import annotations
 
@@ -67,7 +73,10 @@ class Runner:
         self.case = case
         self.inline_none = inline_none     # reference run: `task_timeout(None)` blocks replaced by nothing
         self.strip_all = strip_all         # reference run: no timeouts at all
-        self.log = []                      # oracle log (harness-authored program only)
+        self.logs = {0: []}                # oracle logs per task (harness-authored program only); 0 = main
+        self.tids = {}                     # task object -> tid
+        self.children = {}                 # j -> task
+        self.after = {}                    # tid -> its outermost block has exited
         self.trace = []                    # model events
         self.low = []
         self.bad = []
@@ -84,6 +93,16 @@ class Runner:
         self.handles = 0
         self.tick_handles = {}
         self.after_block = False
+
+    @property
+    def log(self):
+        return self.logs[0]
+
+    def tid(self):
+        return self.tids.get(asyncio.current_task(), 0)
+
+    def lg(self, *rec):
+        self.logs.setdefault(self.tid(), []).append(rec)
 
     def fail(self, kind, detail):
         self.bad.append((kind, detail))
@@ -106,7 +125,12 @@ class Runner:
         if kind == "blk":
             await self.run_block(item[1], path)
             return
-        self.log.append(("op_start", path, kind, self.now()))
+        if kind == "spawn":
+            self.spawn(item[1])
+            return
+        if kind == "join" and item[1] not in self.children:
+            return
+        self.lg("op_start", path, kind, self.now())
         if kind == "s0":
             await asyncio.sleep(0)
         elif kind == "s":
@@ -115,7 +139,11 @@ class Runner:
             r = await self.aux[item[1]]
             if r != ("aux", item[1]):
                 self.fail("awaited-task-result", f"aux {item[1]} returned {r!r}")
-        self.log.append(("op_end", path, kind, self.now()))
+        elif kind == "join":
+            r = await self.children[item[1]]
+            if r != ("child", item[1]):
+                self.fail("awaited-task-result", f"child {item[1]} returned {r!r}")
+        self.lg("op_end", path, kind, self.now())
 
     async def run_body(self, body, path):
         for i, item in enumerate(body):
@@ -129,8 +157,9 @@ class Runner:
         L = self.nlevel
         self.nlevel += 1
         t_in = self.now()
-        info = self.levels[L] = dict(d=d, t_in=t_in, path=path, out=None, t_out=None, seen=None)
-        self.log.append(("enter", L, d, t_in))
+        info = self.levels[L] = dict(d=d, t_in=t_in, path=path, out=None, t_out=None, seen=None,
+                                     task=self.tid())
+        self.lg("enter", L, d, t_in)
         self.low.append(("enter", L, d is not None))
         try:
             self.entering = L
@@ -141,17 +170,17 @@ class Runner:
                 except BaseException as e:  # noqa: BLE001
                     self.keep.append(e)
                     info["seen"] = e
-                    self.log.append(("body_exc", L, self.classify(e), self.now()))
+                    self.lg("body_exc", L, self.classify(e), self.now())
                     raise
         except BaseException as e:  # noqa: BLE001
             self.keep.append(e)
             info["out"], info["t_out"], info["exc"] = self.classify(e), self.now(), e
-            self.log.append(("exit_exc", L, self.classify(e), self.now()))
+            self.lg("exit_exc", L, self.classify(e), self.now())
             self.low.append(("exit", L, info["seen"], e))
             raise
         else:
             info["out"], info["t_out"] = "ok", self.now()
-            self.log.append(("exit_ok", L, self.now()))
+            self.lg("exit_ok", L, self.now())
             self.low.append(("exit", L, None, None))
         finally:
             self.entering = None
@@ -160,41 +189,67 @@ class Runner:
         await asyncio.sleep(k)
         return ("aux", j)
 
-    async def main(self):
+    def spawn(self, j):
+        if j in self.children:
+            return
+        tid = j + 1
+        co = self.task_body(tid, self.case["children"][j]["prog"], self.case["children"][j].get("pre", 0))
+        self.keep.append(co)
+        t = self.I.create_pytask(co)
+        self.tids[t] = tid
+        self.children[j] = t
+        self.logs[tid] = []
+        self.tags.add("child-spawned-in-timed-block" if any(
+            lv["out"] is None and lv["d"] is not None and lv["task"] == self.tid()
+            for lv in self.levels.values()) else "child-spawned")
+
+    async def task_body(self, tid, prog, pre=0):
+        """what the main task (tid 0) and every child task runs: its own block tree, then a tail during
+        which nothing may reach it any more"""
+        if pre:
+            await asyncio.sleep(pre)
         try:
-            await self.run_block(self.case["prog"], ())
-            self.log.append(("prog", "ok", self.now()))
+            await self.run_block(prog, ())
+            self.lg("prog", "ok", self.now())
         except asyncio.TimeoutError:
-            self.log.append(("prog", "timeout", self.now()))
+            self.lg("prog", "timeout", self.now())
         except asyncio.CancelledError as e:
-            self.log.append(("prog", self.classify(e), self.now()))
+            self.lg("prog", self.classify(e), self.now())
             if self.classify(e) == "intr":
                 self.fail("interrupt-escaped", "a TimeoutInterrupt left the outermost block unconverted")
-        self.after_block = True
-        self.low.append(("after",))
-        # the task lives on: nothing may reach it any more
+        self.after[tid] = True
+        if tid == 0:
+            self.after_block = True
         try:
             for _ in range(3):
                 await asyncio.sleep(0)
-            await asyncio.sleep(self.horizon)
+            await asyncio.sleep(self.horizon if tid == 0 else 2)
             for _ in range(3):
                 await asyncio.sleep(0)
+            if tid == 0:
+                for j in sorted(self.children):
+                    await self.children[j]
         except BaseException as e:  # noqa: BLE001
             self.keep.append(e)
             self.fail("exception-after-block",
-                      f"{type(e).__name__} reached the task at t={self.now()} after the block had exited")
-        self.log.append(("tail", "done", self.now()))
+                      f"{type(e).__name__} reached task {tid} at t={self.now()} after its block had exited")
+        self.lg("tail", "done", self.now())
+        return ("child", tid - 1)
+
+    async def main(self):
+        self.tids[asyncio.current_task()] = 0
+        return await self.task_body(0, self.case["prog"])
 
     # ------------------------------------------------------------------ instrumentation
     def patch(self):
         run = self
         loop = self.loop
-        orig_call_later = loop.call_later
+        orig_call_at = loop.call_at
         orig_create_task = loop.create_task
         orig_throw = self.I.task_throw
 
-        def call_later(delay, cb, *a, **kw):
-            h = orig_call_later(delay, cb, *a, **kw)
+        def call_at(when, cb, *a, **kw):       # call_later goes through self.call_at
+            h = orig_call_at(when, cb, *a, **kw)
             if run.entering is not None:
                 run.timer_level[id(h)] = run.entering
                 run.levels[run.entering]["timer"] = h
@@ -220,13 +275,17 @@ class Runner:
                 run.exc_level[id(exc)] = L
                 run.keep.append(exc)
             run.low.append(("throw", L, True))
-            if run.after_block:
-                run.fail("interrupt-after-exit", f"task_throw performed at t={run.now()} after the block had exited")
+            if run.after.get(run.tids.get(task, 0)):
+                run.fail("interrupt-after-exit", f"task_throw performed at t={run.now()} on task "
+                         f"{run.tids.get(task, 0)} after its block had exited")
+            elif L is not None and run.tids.get(task, 0) != run.levels[L]["task"]:
+                run.fail("interrupt-wrong-task", f"level {L} of task {run.levels[L]['task']} interrupted task "
+                         f"{run.tids.get(task, 0)}")
             elif L is not None and run.levels[L]["out"] is not None:
                 run.fail("interrupt-after-exit",
                          f"level {L} (exited at t={run.levels[L]['t_out']}) threw its interrupt at t={run.now()}")
 
-        loop.call_later = call_later
+        loop.call_at = call_at
         loop.create_task = create_task
         self.I.task_throw = task_throw
         orig_run = asyncio.events.Handle._run
@@ -260,50 +319,57 @@ class Runner:
 
     def after_handle(self, handle):
         out = []
+        T = lambda L: self.levels[L]["task"]        # noqa: E731
+        touched = set()
         if self.cur_handle_level is not None:
-            out.append(f"ev fire {self.cur_handle_level}")
+            out.append(f"ev {T(self.cur_handle_level)} fire {self.cur_handle_level}")
+            touched.add(T(self.cur_handle_level))
             self.tags.add("timer-fired")
         throws = [e for e in self.low if e[0] == "throw"]
         if self.cur_itask is not None:
             L = self.cur_itask
+            touched.add(T(L))
             if throws:
-                out.append(f"ev istep {L} " + ("thrown" if throws[0][2] else "refused"))
+                out.append(f"ev {T(L)} istep {L} " + ("thrown" if throws[0][2] else "refused"))
                 if not throws[0][2]:
                     self.tags.add("interrupt-refused")
             else:
-                out.append(f"ev istep {L} none")
+                out.append(f"ev {T(L)} istep {L} none")
         exits = []
         for e in self.low:
             if e[0] == "enter":
-                out.append(f"ev enter {e[1]} {int(e[2])}")
+                out.append(f"ev {T(e[1])} enter {e[1]} {int(e[2])}")
+                touched.add(T(e[1]))
             elif e[0] == "exit":
                 exits.append(e)
             elif e[0] == "after":
                 pass
         if exits:
-            out.extend(self.unwind_events(exits))
+            touched.add(T(exits[0][1]))
+            out.extend(self.unwind_events(exits, T(exits[0][1])))
         self.low = []
         self.cur_handle_level = None
         self.cur_itask = None
         # environment cancels at chosen points
         for tick, nth in self.case.get("cancel_at", []):
             k = self.tick_handles.get(self.now(), 0)
-            if tick == self.now() and nth == k and self.levels and not self.main_task.done() and not self.after_block:
+            if tick == self.now() and nth == k and self.levels and not self.case.get("children") and not self.main_task.done() and not self.after_block:
                 if self.main_task.cancel():
                     self.tags.add("env-cancel")
         self.tick_handles[self.now()] = self.tick_handles.get(self.now(), 0) + 1
         if out:
             self.trace.extend(out)
-            self.trace.append("obs " + self.observe())
+            for t in sorted(touched):
+                self.trace.append(f"obs {t} " + self.observe(t))
 
-    def unwind_events(self, exits):
+    def unwind_events(self, exits, t):
         """consecutive block exits inside one step of the main task"""
         out = []
         i = 0
         while i < len(exits):
             _, L, seen, exc = exits[i]
             if exc is None:
-                out.append(f"ev exitOk {L}")
+                out.append(f"ev {t} exitOk {L}")
                 i += 1
                 continue
             # a chain of exceptional exits (innermost first) caused by one exception
@@ -320,17 +386,19 @@ class Runner:
                 for (_, l2, s2, e2) in chain:
                     res.append("T" if isinstance(e2, asyncio.TimeoutError) else
                                "I" if e2 is first_seen else "X")
-                out.append(f"ev raise {'-' if o is None else o} {len(chain)} " + "".join(res))
+                out.append(f"ev {t} raise {'-' if o is None else o} {len(chain)} " + "".join(res))
             else:
                 for (_, l2, s2, e2) in chain:
-                    out.append(f"ev exitOther {l2}")
+                    out.append(f"ev {t} exitOther {l2}")
             i = j
         return out
 
-    def observe(self):
+    def observe(self, t):
         parts = []
         for L in sorted(self.levels):
             info = self.levels[L]
+            if info["task"] != t:
+                continue
             th = info.get("timer")
             if th is None:
                 ts = "none"
@@ -394,6 +462,9 @@ class Runner:
                 break
             if not t.done() or t.cancelled() or t.exception() is not None:
                 self.fail("awaited-task-cancelled", f"aux task {j}: done={t.done()} cancelled={t.cancelled()}")
+        for j, t in self.children.items():
+            if not t.done() or t.cancelled() or t.exception() is not None:
+                self.fail("child-task-cancelled", f"child task {j}: done={t.done()} cancelled={t.cancelled()}")
         for L, info in self.levels.items():
             it = info.get("itask")
             if it is not None and (not it.done() or it.cancelled() or it.exception() is not None):
@@ -412,7 +483,8 @@ def max_time(case):
             elif it[0] == "blk":
                 s += tot(it[1])
         return s
-    return tot(case["prog"]) + sum(case.get("aux", [])) + 3
+    return (tot(case["prog"]) + sum(case.get("aux", [])) + 3
+            + sum(c.get("pre", 0) + tot(c["prog"]) + 3 for c in case.get("children", [])))
 
 
 # ---------------------------------------------------------------------------------------
@@ -462,13 +534,14 @@ def judge(r: Runner):
             if t_out == D and d > 0:
                 r.tags.add("tie-completed")
     # an interrupted op is the one in progress: an unfinished op is directly followed by the exception
-    for a, b in zip(r.log, r.log[1:]):
-        if a[0] == "op_start" and not (b[0] == "op_end" and b[1] == a[1]) and b[0] not in ("body_exc", "prog"):
-            r.fail("interrupt-not-at-suspension-point", f"op {a} was followed by {b}")
+    for tid, log in r.logs.items():
+        for a, b in zip(log, log[1:]):
+            if a[0] == "op_start" and not (b[0] == "op_end" and b[1] == a[1]) and b[0] not in ("body_exc", "prog"):
+                r.fail("interrupt-not-at-suspension-point", f"task {tid}: op {a} was followed by {b}")
     # ties
     for L, info in r.levels.items():
         if info["d"] is not None and info["out"] == "timeout" and info["d"] > 0:
-            for rec in r.log:
+            for rec in r.logs.get(info["task"], []):
                 if rec[0] == "op_end" and rec[3] == info["t_out"]:
                     r.tags.add("tie-deadline-equals-completion")
     ds = [(i["t_in"] + i["d"]) for i in r.levels.values() if i["d"] is not None]
@@ -478,8 +551,18 @@ def judge(r: Runner):
         r.tags.add("deadline-not-in-future")
     if any(i["d"] is None for i in r.levels.values()):
         r.tags.add("none-level")
+    for L, info in r.levels.items():
+        if info["task"] != 0 and info["d"] is not None:
+            r.tags.add("child-timed-block")
+            if info["out"] == "timeout":
+                r.tags.add("child-timeout-raised")
+            # did the child's block outlast every block of its creator that was open when it started?
+            if any(p["task"] == 0 and p["d"] is not None and p["t_in"] <= info["t_in"] and p["t_out"] is not None
+                   and p["t_out"] < (info["t_out"] or 0) for p in r.levels.values()):
+                r.tags.add("child-block-outlasts-parent-block")
 
 
-def canon_log(log, skip_none_levels=None):
-    """log without block markers (used to compare with reference runs)"""
-    return [rec for rec in log if rec[0] in ("op_start", "op_end", "prog", "tail")]
+def canon_log(r):
+    """all tasks' logs without block markers (used to compare with reference runs)"""
+    return [(tid,) + tuple(rec) for tid in sorted(r.logs) for rec in r.logs[tid]
+            if rec[0] in ("op_start", "op_end", "prog", "tail")]
